@@ -2,7 +2,8 @@
 """Prints the markdown table of seeded changes (seeded/<id>/meta.json) for DESIGN.md."""
 import json, glob, os
 NOTES = {
-    "C07-a": "quick tier misses it (needs 2 scheduling deviations); caught by `./check C07 --tier thorough` (VerifC07Race, preempt=2)",
+    "C08-a": "no longer a violation since fix 354c67d (the record is checked again after the scan): the demonstration passes on the repaired tree",
+    "C08-b": "no longer a violation since fix 354c67d (the record is checked again after the scan): the demonstration passes on the repaired tree",
 }
 import io, sys, re
 buf = io.StringIO()
@@ -23,6 +24,8 @@ for d in sorted(glob.glob("/verif/seeded/*")):
     note = NOTES.get(sid, "")
     if extra:
         note += " exit 2 (inconclusive) from: " + ", ".join(extra)
+    if m.get("no_longer_applies_on"):
+        note += " results recorded at commit %s; the lines it touches were repaired since, the patch no longer applies on %s" % (str(m.get("base", ""))[:7], str(m["no_longer_applies_on"])[:7])
     print("| %s | %s | %s | %s | %s |" % (sid, m.get("what", ""), ok, caught, note.strip()))
 
 if len(sys.argv) > 1 and sys.argv[1] == "--update":
